@@ -805,6 +805,7 @@ fn run_case(ctx: &Ctx, h: &Honest, case: &Case) -> CaseOut {
             if new_effects > 0 {
                 why.push(format!("{new_effects} effect(s) committed"));
             }
+            t.count(&format!("violations_in_class_{}", tam.class), 1);
             t.violation(vkey.clone(), format!("{cname} on base {:?}: modified command ({}) was not cleanly refused [{outcome}]: {}", case.base, tam.name, why.join("; ")), replay());
         }
     } else {
